@@ -451,6 +451,12 @@ SymChecks(e) ==
             <<"legal_moves_are_mirror_images", MovesOfJson(e.b.legal) = {mm(m) : m \in MovesOfJson(e.a.legal)}
                                                /\ Len(e.b.legal) = Len(e.a.legal)>>,
             <<"check_is_the_same", e.b.check = e.a.check /\ e.b.has_legal = e.a.has_legal>>,
+            \* (the move number is the one field that is not colour-symmetric: it advances after Black's move)
+            <<"moves_have_mirror_image_effects",
+                {<<mm(MoveOfJson(e.a.succ[i][1])),
+                   [(IF mirror THEN MirrorPos(PosOfJson(e.a.succ[i][2])) ELSE FlopPos(PosOfJson(e.a.succ[i][2]))) EXCEPT !.fm = 0]>> :
+                     i \in 1..Len(e.a.succ)}
+                = {<<MoveOfJson(e.b.succ[i][1]), [PosOfJson(e.b.succ[i][2]) EXCEPT !.fm = 0]>> : i \in 1..Len(e.b.succ)}>>,
             <<"outcome_same_with_winner_swapped",
                 e.b.outcome = (IF mirror THEN SwapOutcome(e.a.outcome) ELSE e.a.outcome)>>})
 
